@@ -42,10 +42,37 @@ def transient_case(rng):
     return pre + [Instr('REPEAT', body=body, reps=reps)] + suffix
 
 
+def ring_case(rng):
+    """measurement results with period k (an excitation, or several, carried around a ring of k qubits, one qubit measured per
+    iteration): periods 3, 5, 6, 7, 9, 10, 15 with every repetition count / starting phase, so that period windows of the form
+    [a, a, b], [a, a, a, a, b], ... occur"""
+    k = rng.choice([3, 3, 5, 5, 6, 7, 9, 10, 15])
+    pre = []
+    ones = rng.sample(range(k), rng.choice([1, 1, 2, max(1, k // 2)]))
+    pre.append(Instr('X', [], [T('q', q) for q in ones]))
+    for _ in range(rng.randrange(k)):          # starting phase
+        pre += [Instr('SWAP', [], [T('q', j), T('q', j + 1)]) for j in range(k - 1)]
+    body = [Instr('SWAP', [], [T('q', j), T('q', j + 1)]) for j in range(k - 1)]
+    mq = rng.randrange(k)
+    body.append(Instr('M', [], [T('q', mq)]))
+    if rng.random() < 0.3:
+        body.append(Instr('M', [], [T('q', rng.randrange(k))]))
+    if rng.random() < 0.3:
+        body.append(Instr('DETECTOR', [], [T('rec', 1)]))
+    reps = rng.choice([10, 11, 12, 13, 14, 15, 16, 17, 18, 20, 21, 24, 25, 27, 30, 31, 35, 45, 60, 61, 100])
+    suffix = [Instr('M', [], [T('q', q) for q in range(k)])]
+    if rng.random() < 0.4:
+        suffix.insert(0, Instr('CX', [], [T('rec', rng.randint(1, 6)), T('q', rng.randrange(k))]))
+    return pre + [Instr('REPEAT', body=body, reps=reps)] + suffix
+
+
 def loop_case(rng, gates, names):
     """prefix ; REPEAT r { body with MR/M, detectors across iterations, feedback, SHIFT_COORDS } ; suffix with detectors"""
-    if rng.random() < 0.2:
+    r0 = rng.random()
+    if r0 < 0.2:
         return transient_case(rng)
+    if r0 < 0.35:
+        return ring_case(rng)
     n = rng.choice([1, 2, 3, 4])
     u1, u2 = gencirc.gate_pools(gates)
     prof = gencirc.Profile(repeat=False, feedback=False, spp=False, mpp=False, pair_meas=False, resets=False, len_range=(0, 4))
@@ -149,7 +176,7 @@ def strip_noise_and_annotations(instrs, names):
 
 def run(rep, tier):
     quick = tier == 'quick'
-    svh = core.Svh('o1', timeout=30)
+    svh = core.Svh('o1', timeout=120)
     gates, hashes = gatetable.regenerate(svh)
     names = stimtext.Names(gates)
     rep.set_proof(core.prove(['Properties_C06.v']))
